@@ -1,1 +1,170 @@
-import CnlModel.Basic
+import CnlProofs.Parse
+/-!
+# C15 — literals, parsing and constant-driven deduction yield exactly the written value
+
+Model: `CnlModel.Parse` (scanner, `parse_string` with `int64` chunks through `CnlModel.CInt`, result
+type selection of `_c / _wide / _cnl / _cnl2`, `descale<…, Precise>`, the deduction helpers).
+Spec: `CnlSpec.Token` (C++ token grammar as a decidable predicate, positional value).
+
+What is proved, for tokens of ANY length and result types of ANY width:
+
+* `parseString_exact_wide`, `parseString_exact_builtin` — Horner over the chunk list: reading `n`
+  digits in chunks of `n mod stride, stride, stride, …` through `int64` and accumulating them with
+  `init·base^stride + chunk` gives the positional value of all digits (negated for a negative
+  token): modulo `2^bits` for a multi-limb result (so exactly when the type holds it), and exactly —
+  with no undefined behaviour on the way — for a signed built-in result that holds the value.
+* `chunk_fits` — `10^18, 16^15, 8^21, 2^63 ≤ 2^63`, used above: a chunk never overflows `int64`.
+* `width_estimate` — the scanner's `num_bits` exceeds the bit length of the value for every base,
+  every length and every leading digit (decimal: with the repaired `⌈3.322 n⌉`, from the single
+  fact `10^1000 < 2^3322`); `old_estimate_refuted` records why the repair (/repo 433014e) was needed.
+* `parse_exact_wide_partial`, `parse_exact_builtin_partial` — the run-time `parse<T>` / the
+  compile-time parser applied to a well-formed token return the value the token denotes.
+  *Partial*: they assume `Located`, i.e. that `scan_string` found base, sign, first numeral and digit
+  count of the token (a decidable statement relating `CnlModel.Parse.scanString` to the grammar of
+  `CnlSpec.Token`).  The symbolic proof of `Located` for every well-formed token (a list-combinatorics
+  argument about `idxOf / count / take / drop`) is not done; the driver evaluates `Located` on every
+  token of every run instead (it is part of the oracle), and `FullParseExact` states the goal.
+* `deduction_exact`, `deduction_digits`, `deduction_holds` — `v = (v >> tz) << tz`,
+  `used_digits (|v| >> tz) = used_digits |v| − tz`, `|v| >> tz < 2^digits`: the types deduced by
+  `make_elastic_scaled_integer` (and the other factories for non-negative constants) hold `v` exactly.
+* Open classes, shown on the model: `udl_round_integer_rejected` (`10.0_cnl`, `10.0_cnl2`),
+  `octal_separator_rejected` (`0'7`), `static_negative_power_of_two_traps`
+  (`make_static_integer(-8_c)`); they are listed in findings/C15.json and are outside the theorems
+  above (no wrong value is produced in any of them).
+-/
+namespace Cnl.C15
+open Cnl Cnl.Parse Cnl.Token Cnl.ParseProofs
+
+/-- the strides of the four bases never overflow an `int64` chunk -/
+theorem chunk_fits : 10 ^ 18 ≤ 2 ^ 63 ∧ 16 ^ 15 ≤ 2 ^ 63 ∧ 8 ^ 21 ≤ 2 ^ 63 ∧ 2 ^ 63 ≤ 2 ^ 63 :=
+  ParseProofs.chunk_fits
+
+/-- Horner, multi-limb result (`_wide` beyond 127 digits, `parse<wide_integer<N>>`): for a digit
+string of any length the result is the positional value modulo `2^bits` -/
+theorem parseString_exact_wide {base stride : Nat} (hs : StrideOK base stride) (bits : Nat) (neg : Bool)
+    (cs : List Char) (n : Nat) (ds : List Nat) (rest : List Char)
+    (h : readDigits base cs n = .ok (ds, rest)) (hd : ∀ d ∈ ds, d < base) :
+    parseString (.wide bits) cs n neg base stride = .ok (W bits (sg neg (positional base ds))) :=
+  parseString_wide hs bits neg cs n ds rest h hd
+
+/-- … hence exactly the value when the type holds it -/
+theorem parseString_exact_wide_fits {base stride : Nat} (hs : StrideOK base stride) (bits : Nat) (hb : 1 ≤ bits) (neg : Bool)
+    (cs : List Char) (n : Nat) (ds : List Nat) (rest : List Char)
+    (h : readDigits base cs n = .ok (ds, rest)) (hd : ∀ d ∈ ds, d < base)
+    (hfit : (IntTy.mk bits true).InRange (sg neg (positional base ds))) :
+    parseString (.wide bits) cs n neg base stride = .ok (sg neg (positional base ds)) := by
+  rw [parseString_wide hs bits neg cs n ds rest h hd]
+  unfold W
+  rw [IntTy.wrap_id hb hfit]
+
+/-- Horner, signed built-in result of at least 64 bits (`__int128` for `_c`, `_cnl`, `_cnl2`,
+`CNL_INTMAX_C`): exact, and free of undefined behaviour, whenever the type holds the value -/
+theorem parseString_exact_builtin {base stride : Nat} (hs : StrideOK base stride) {t : IntTy} (ht : SignedWide t) (neg : Bool)
+    (cs : List Char) (n : Nat) (ds : List Nat) (rest : List Char)
+    (h : readDigits base cs n = .ok (ds, rest)) (hd : ∀ d ∈ ds, d < base)
+    (hfit : t.InRange (sg neg (positional base ds))) :
+    parseString (.builtin t) cs n neg base stride = .ok (sg neg (positional base ds)) :=
+  parseString_builtin hs ht neg cs n ds rest h hd hfit
+
+/-- the decimal estimate is sufficient at every length: `10^n ≤ 2^⌈3.322 n⌉` -/
+theorem decimal_estimate_all_lengths (n : Nat) : 10 ^ n ≤ 2 ^ decimalBits n := by
+  rw [decimalBits_eq]; exact ten_pow_le n
+
+/-- the estimate the code used before the repair was one bit short (first at 4 digits) -/
+theorem old_estimate_refuted : ¬ ∀ n : Nat, 10 ^ n ≤ 2 ^ ((n * 3322 + 678) / 1000) := by
+  intro h; exact absurd (h 4) (by decide)
+
+/-- width estimate: for all four bases, every digit count and every leading digit the value of the
+token is below `2^num_bits` (`num_bits` as `scan_msb` computes it, see `scanMsb_numBits`) -/
+theorem width_estimate (base : Nat) (hb : base = 2 ∨ base = 8 ∨ base = 10 ∨ base = 16)
+    (d0 : Nat) (ds : List Nat) (hd0 : d0 < base) (hd : ∀ d ∈ ds, d < base) :
+    positional base (d0 :: ds) < 2 ^ estimate base (ds.length + 1) d0 :=
+  estimate_sufficient base hb d0 ds hd0 hd
+
+/-- `scan_msb` stores `estimate base n d0` where `d0` is the digit it finds at the first numeral -/
+theorem scan_msb_stores_estimate (cs : List Char) (neg : Bool) (base stride off n f : Nat) (p : Params)
+    (h : scanMsb cs neg base stride off (maxBits base n) n f = .ok p) :
+    ∃ d0, digitPos base (cs.getD (off + (if cs.getD off '\x00' == radixChar then 1 else 0)) '\x00') = some d0 ∧
+      p.numBits = estimate base n d0 ∧ p.numDigits = n ∧ p.base = base :=
+  scanMsb_numBits cs neg base stride off n f p h
+
+/-- the scanner located the token: base, sign, stride and the digits behind the first numeral are
+those of the grammar.  Decidable; evaluated by the driver on every token of every run. -/
+def Located (cs : List Char) (t : Token) (p : Params) : Prop :=
+  scanString cs = .ok p ∧ StrideOK p.base p.stride ∧ p.base = t.body.base ∧ p.isNegative = t.negative ∧
+  (∀ d ∈ t.body.digits, d < t.body.base) ∧
+  ∃ rest, readDigits p.base (cs.drop p.firstNumeral) p.numDigits = .ok (t.body.digits, rest)
+
+/-- run-time `parse<wide_integer<N>>` of a located well-formed token: the denoted value modulo `2^bits` -/
+theorem parse_exact_wide_partial (cs : List Char) (t : Token) (p : Params) (bits : Nat)
+    (_hw : token cs = some t) (hl : Located cs t p) :
+    parse (.wide bits) cs = .ok (W bits t.significand) := by
+  obtain ⟨hscan, hs, hbase, hneg, hd, rest, hr⟩ := hl
+  unfold parse
+  rw [hscan]; simp only [Res.bind_ok]
+  rw [parseString_wide hs bits p.isNegative _ _ _ rest hr (by rw [hbase]; exact hd)]
+  unfold Token.significand sg
+  rw [hbase, hneg]
+
+/-- run-time `parse<T>` for a signed built-in `T` (≥ 64 bits) that holds the value: exactly the
+value the token denotes -/
+theorem parse_exact_builtin_partial (cs : List Char) (t : Token) (p : Params) {ty : IntTy} (ht : SignedWide ty)
+    (_hw : token cs = some t) (hl : Located cs t p) (hfit : ty.InRange t.significand) :
+    parse (.builtin ty) cs = .ok t.significand := by
+  obtain ⟨hscan, hs, hbase, hneg, hd, rest, hr⟩ := hl
+  have hsig : t.significand = sg p.isNegative (positional p.base t.body.digits) := by
+    unfold Token.significand sg
+    rw [hbase, hneg]
+  unfold parse
+  rw [hscan]; simp only [Res.bind_ok]
+  rw [parseString_builtin hs ht p.isNegative _ _ _ rest hr (by rw [hbase]; exact hd) (by rw [← hsig]; exact hfit), hsig]
+
+/-- the full statement the `parse_exact_*_partial` theorems fall short of: every well-formed token is
+located.  Two kinds of token are excluded because the statement is false of the code there:
+an octal token with a separator right after the leading `0` (open finding
+`C15.octal_separator_after_prefix`), and a *signed* one-digit octal token such as `-07`, which
+`scan_base` reads as the two-digit decimal `07` (`offset + 1 >= num_non_separators`) — same value,
+different base, so `Located` as stated does not hold although the result is right (the driver's
+oracle accepts exactly this variation). -/
+def FullParseExact : Prop :=
+  ∀ (cs : List Char) (t : Token), token cs = some t →
+    ¬ (cs.take 2 = ['0', '\''] ∨ (cs.drop 1).take 2 = ['0', '\'']) →
+    ¬ (t.signed = true ∧ t.body.base = 8 ∧ t.body.digits.length = 1) → ∃ p, Located cs t p
+
+/-- moving the trailing zero bits into the exponent loses nothing -/
+theorem deduction_exact (v : Int) : shiftOut v (trailingBits v) * 2 ^ trailingBits v = v :=
+  shiftOut_exact v
+
+/-- … and removes exactly that many used digits -/
+theorem deduction_digits (n : Nat) (hn : n ≠ 0) :
+    usedDigitsNat (n / 2 ^ tzFuel n n) = usedDigitsNat n - tzFuel n n :=
+  usedDigitsNat_div n _ hn (tzFuel_dvd n n)
+
+/-- a type with `used_digits` digits holds the magnitude -/
+theorem deduction_holds (n : Nat) : n < 2 ^ usedDigitsNat n := usedDigitsNat_lt n
+
+/-! ### open classes, exhibited on the model (findings/C15.json) -/
+
+/-- `10.0_cnl` exhausts the constant-evaluation budget, `10.0_cnl2` reaches `unreachable` -/
+theorem udl_round_integer_rejected :
+    litCnl "10.0".toList = .ill "constexpr loop limit" ∧ litCnl2 "10.0".toList = .ill "not a constant expression" := by
+  decide +kernel
+
+theorem octal_separator_rejected : scanString "0'7".toList = .unreachable "invalid digit" := by decide
+
+theorem static_negative_power_of_two_traps :
+    makeStaticInteger (-8) = .trap false ∧ makeStaticNumber (-8) = .trap false := by decide
+
+/-! ### non-vacuity -/
+
+example : Located "0x1F'ff".toList ⟨false, false, ⟨16, [1, 15, 15, 15], 0, false⟩⟩ ⟨false, 16, 15, 2, 15, 4, 0⟩ := by
+  refine ⟨by decide, by unfold StrideOK; decide, rfl, rfl, by decide, [], by decide⟩
+example : token "0x1F'ff".toList = some ⟨false, false, ⟨16, [1, 15, 15, 15], 0, false⟩⟩ := by decide
+example : parse (.wide 160) "-12345678901234567890123".toList = .ok (-12345678901234567890123) := by decide
+example : parse (.builtin i128) "0777".toList = .ok 511 := by decide
+example : StrideOK 10 18 := Or.inl ⟨rfl, rfl⟩
+example : SignedWide i128 := ⟨rfl, by decide⟩
+example : positional 10 [9, 9, 9, 9] < 2 ^ estimate 10 4 9 := by decide
+example : makeElasticScaledInteger 24 = .ok ⟨.sc (.el 2 (.int i32)) 3 2, .builtin i32, 3⟩ := by decide
+
+end Cnl.C15
